@@ -59,6 +59,10 @@ Section OC.
     map (fun q => match q with (i, (xi, gi)) => oc_elem lam (move pr) (bget (bmin pr) i) (bget (bmax pr) i) xi gi end)
         (combine (seq 0 (length x)) (combine x g)).
 
+  (* rel_fchange = abs(f-fprev)/abs(f);  rel_stepsize = np.linalg.norm(xval - xnew)/np.linalg.norm(xval) *)
+  Definition rel_fchange (f fprev : K) : K := odiv P (oabs P (osub P f fprev)) (oabs P f).
+  Definition rel_stepsize (xval xn : list K) : K := odiv P (onorm (vsub xval xn)) (onorm xval).
+
   (* dfdx = np.minimum(dfdx, 0) *)
   Definition clip_grad (g : list K) : list K := map (fun v => omin v 0) g.
 
@@ -116,9 +120,8 @@ Section OC.
     | S n' =>
         let fg := obs it states in                      (* function.response(); ... function.sensitivity() *)
         let fnew := fst fg in
-        let rel_fchange := odiv P (oabs P (osub P fnew f)) (oabs P fnew) in
         cons_design xval states
-          (if oltb P rel_fchange (tolf pr) then mkTrace [] [] StopTolF xval states
+          (if oltb P (rel_fchange fnew f) (tolf pr) then mkTrace [] [] StopTolF xval states
            else
              match concatenate_to_array (obtain_sensitivities (snd fg) states) with
              | None => mkTrace [] [] StopValueError xval states
@@ -129,8 +132,7 @@ Section OC.
                 | BisOutOfFuel => mkTrace [] [] StopOutOfFuel xval states
                 | BisDone _ _ None => mkTrace [] [] StopUnbound xval states   (* xnew referenced before assignment *)
                 | BisDone _ _ (Some xn) =>
-                    let rel_stepsize := odiv P (onorm (vsub xval xn)) (onorm xval) in
-                    if oltb P rel_stepsize (tolx pr) then mkTrace [] [] StopTolX xval states
+                    if oltb P (rel_stepsize xval xn) (tolx pr) then mkTrace [] [] StopTolX xval states
                     else oc_loop pr obs maxvol bfuel cum n' (S it) xn (write_back (length states) xn cum) fnew (Some xn)
                 end)
              end)
@@ -160,3 +162,10 @@ Definition FloatOOps : OOps float :=
   {| o0 := PrimFloat.zero; ohalf := 0x1p-1%float;
      oadd := PrimFloat.add; osub := PrimFloat.sub; omul := PrimFloat.mul; odiv := PrimFloat.div;
      oopp := PrimFloat.opp; osqrt := PrimFloat.sqrt; oabs := PrimFloat.abs; oltb := PrimFloat.ltb |}.
+
+(* the keyword defaults of minimize_oc (tolx=1e-4, tolf=1e-4, maxit=100, xmin=0.0, xmax=1.0, move=0.2, l1init=0,
+   l2init=100000, l1l2tol=1e-4) and the literal 1e-15 of the warning test, as binary64 values *)
+Definition default_params : @oc_params float :=
+  mkParams 0x1.a36e2eb1c432dp-14%float 0x1.a36e2eb1c432dp-14%float 100
+           (BScalar 0%float) (BScalar 1%float) 0x1.999999999999ap-3%float
+           0%float 100000%float 0x1.a36e2eb1c432dp-14%float 0x1.203af9ee75616p-50%float.
